@@ -130,6 +130,7 @@ func ruleErrorDiscipline(c *Ctx, rule string) {
 	}
 	c.floor(rule, nFn, 30, "functions returning an error")
 	c.floor(rule, nRet, 20, "nil-error returns")
+	unusedCallErrors(c, rule)
 }
 
 // ruleEveryFrameKindHandled (C09.14, C03.14): a frame of any kind does something. The two per-stream accept methods have
@@ -452,4 +453,118 @@ func isSelfView(v ssa.Value, p *ssa.Parameter) bool {
 		}
 	})
 	return okAll && n > 0
+}
+
+// unusedCallErrors (part of the error-discipline rule): a call that yields (values..., error) whose values are used while its
+// error is never looked at. The blank identifier and a never-read variable are the same thing here: the failure of that call
+// goes unnoticed and the (zero) values are used as if it had succeeded.
+func unusedCallErrors(c *Ctx, rule string) {
+	w := c.W
+	n := 0
+	for _, fn := range w.Funcs {
+		if isGenericTemplate(fn) || fn.Synthetic != "" {
+			continue
+		}
+		allInstrsLocal(fn, func(in ssa.Instruction) {
+			call, ok := in.(*ssa.Call)
+			if !ok {
+				return
+			}
+			tup, isT := call.Type().(*types.Tuple)
+			if !isT || tup.Len() < 2 || !isErrorType(tup.At(tup.Len()-1).Type()) {
+				return
+			}
+			n++
+			usedVal, usedErr := false, false
+			for _, r := range *call.Referrers() {
+				ex, isEx := r.(*ssa.Extract)
+				if !isEx {
+					continue
+				}
+				live := false
+				for _, rr := range *ex.Referrers() {
+					switch y := rr.(type) {
+					case *ssa.DebugRef:
+					case *ssa.Store:
+						// kept in a local variable cell (a named result, a captured variable): live only if the cell can be
+						// read before it is overwritten
+						al, isAl := y.Addr.(*ssa.Alloc)
+						if !isAl || y.Val != ssa.Value(ex) {
+							live = true
+							continue
+						}
+						isRead := func(x ssa.Instruction) bool {
+							switch z := x.(type) {
+							case *ssa.UnOp:
+								return z.X == ssa.Value(al)
+							case *ssa.MakeClosure:
+								for _, b := range z.Bindings {
+									if b == ssa.Value(al) {
+										return true
+									}
+								}
+							case *ssa.Call:
+								for _, a := range z.Call.Args {
+									if a == ssa.Value(al) {
+										return true
+									}
+								}
+							}
+							return false
+						}
+						isOverwrite := func(x ssa.Instruction) bool {
+							st, isSt := x.(*ssa.Store)
+							return isSt && st.Addr == ssa.Value(al) && x != ssa.Instruction(y)
+						}
+						if allocEscapesToClosure(al) || pathAvoiding(fn, y, isRead, isOverwrite) != nil {
+							live = true
+						}
+					default:
+						live = true
+					}
+				}
+				if !live {
+					continue
+				}
+				if ex.Index == tup.Len()-1 {
+					usedErr = true
+				} else {
+					usedVal = true
+				}
+			}
+			key := fmt.Sprintf("%s: error of %s looked at", w.Short(fn), calleeDescShort(call))
+			if usedVal && !usedErr {
+				if why, ok := ignoredCallErrors[calleeDescShort(call)]; ok {
+					c.exception(rule, key, w.At(call), "frozen exception: "+why)
+					return
+				}
+				c.fail(rule, key, w.At(call), "the values this call returns are used but its error is never examined: when the call fails the zero values are used as if it had succeeded (nil dereference, or an operation on a stream that was never opened)")
+				return
+			}
+			c.ok(rule, key, w.At(call), "error examined, or the whole result discarded")
+		})
+	}
+	c.floor(rule, n, 10, "calls returning values and an error")
+}
+
+// ignoredCallErrors: callees whose error is deliberately not examined while the value is used.
+var ignoredCallErrors = map[string]string{}
+
+func calleeDescShort(call *ssa.Call) string {
+	n := calleeName(call)
+	if i := strings.LastIndex(n, "/"); i >= 0 {
+		n = n[i+1:]
+	}
+	return n
+}
+
+
+// allocEscapesToClosure: the variable cell is captured by a function literal (it may be read at any time).
+func allocEscapesToClosure(al *ssa.Alloc) bool {
+	for _, r := range *al.Referrers() {
+		if _, ok := r.(*ssa.MakeClosure); ok {
+			return true
+		}
+	}
+	return false
 }
